@@ -358,7 +358,9 @@ def c18_types(E, s):
     x, N, M, R = s_tt(E, 'x', s.get('d', 2), s.get('kind', 'tt'), B)
     tt = E.tt
     arg = {'str': 'a', 'none': None, 'list': [1, 2], 'dense': E.stensor('w', [E.dim('w0', 2, B), E.dim('w1', 2, B)]), 'dict': {},
-           'vec': E.stensor('w', [E.dim('w0', 2, B + 1)]), 'col': E.stensor('w', [E.dim('w0', 2, B + 1), 1])}[s['arg']]      # (tensors with more than one element are not scalars)
+           'vec': E.stensor('w', [E.dim('w0', 2, B + 1)]), 'col': E.stensor('w', [E.dim('w0', 2, B + 1), 1]),
+           'row': E.stensor('w', [1, E.dim('w0', 2, B + 1)]), 'slab': E.stensor('w', [1, E.dim('w0', 2, B + 1), 1]),
+           'slab4': E.stensor('w', [1, E.dim('w0', 2, B + 1), E.dim('w1', 1, B), 1])}[s['arg']]      # (tensors with more than one element are not scalars)
     what = s['what']
     f = {
         'add': lambda: x + arg, 'radd': lambda: arg + x, 'sub': lambda: x - arg, 'mul': lambda: x * arg, 'matmul': lambda: x @ arg,
